@@ -729,6 +729,19 @@ class Sym:
             if not isinstance(st.value, ast.Constant):
                 self.ev(fr, p, st.value)      # a call for its side effect (warnings.warn, header.update, ...)
             return [p]
+        if isinstance(st, (ast.Assign, ast.AnnAssign)) and isinstance(st.value, ast.IfExp):
+            # `x = a if c else b` == `if c: x = a else: x = b`
+            tg = st.targets if isinstance(st, ast.Assign) else [st.target]
+            mk = lambda v: [ast.fix_missing_locations(ast.copy_location(ast.Assign(targets=tg, value=v), st))]  # noqa: E731
+            fake = ast.copy_location(ast.If(test=st.value.test, body=mk(st.value.body), orelse=mk(st.value.orelse)), st)
+            return self.if_stmt(fr, p, fake)
+        if isinstance(st, ast.Match):
+            from .c17_guards import match_as_if
+
+            chain = match_as_if(st)
+            if chain is None:
+                self.fail(rel, st, "match statement with patterns other than literals")
+            return self.block(fr, [p], chain)
         if isinstance(st, ast.Assign):
             v = self.ev(fr, p, st.value)
             for t in st.targets:
